@@ -116,6 +116,40 @@ def stage_specs(rd):
     return d
 
 
+def apalache_inductive(rd, module, init="Init", indinit="IndInit", inv="IndInv", cinit=None, timeout=600):
+    """Discharges an inductive invariant with Apalache: Init => Inv (length 0) and
+    IndInit /\\ Next => Inv' (length 1).  Returns dict(ok, steps=[...]); ok is None when Apalache is
+    missing or did not finish (the caller records that - it is never a verdict about the code: the
+    models checked this way are design-level)."""
+    d = stage_specs(rd)
+    exe = shutil.which("apalache-mc")
+    if not exe:
+        return dict(ok=None, steps=[], note="apalache-mc not on PATH")
+    out = os.path.join(rd, "apalache_%s_%d" % (module, random.randrange(1 << 30)))
+    steps, ok = [], True
+    e = dict(os.environ)
+    e.pop("JAVA_TOOL_OPTIONS", None)
+    for (i, length) in ((init, 0), (indinit, 1)):
+        cmd = [exe, "check", "--out-dir=" + out, "--init=" + i, "--inv=" + inv, "--length=%d" % length]
+        if cinit:
+            cmd.append("--cinit=" + cinit)
+        cmd.append(module + ".tla")
+        t0 = time.time()
+        try:
+            p = sh(cmd, cwd=d, env=e, timeout=timeout, check=False)
+            txt = p.stdout
+        except subprocess.TimeoutExpired:
+            return dict(ok=None, steps=steps, note="apalache timed out")
+        res = "ok" if "EXITCODE: OK" in txt else ("violation" if "EXITCODE: ERROR (12)" in txt else "error")
+        steps.append(dict(init=i, length=length, result=res, wall_s=round(time.time() - t0, 1)))
+        if res == "error":
+            return dict(ok=None, steps=steps, note=txt[-1500:])
+        if res == "violation":
+            ok = False
+    shutil.rmtree(out, ignore_errors=True)
+    return dict(ok=ok, steps=steps)
+
+
 _summary_re = re.compile(r"(\d+) states generated, (\d+) distinct states found")
 
 
